@@ -19,6 +19,7 @@ from collections.abc import Iterable
 from attrs import evolve
 
 from ... import Config, utils
+from ... import _verif_trace
 from ... import schema as oai
 from ..errors import ParameterError, ParseError, PropertyError
 from .any import AnyProperty
@@ -329,6 +330,7 @@ def _create_schemas(
         for name, data in to_process:
             if isinstance(data, oai.Reference):
                 schemas.errors.append(PropertyError(data=data, detail="Reference schemas are not supported."))
+                _verif_trace.emit("create_try", name=name, outcome="topref")
                 continue
             ref_path = parse_reference_path(f"#/components/schemas/{name}")
             if isinstance(ref_path, ParseError):
@@ -338,10 +340,20 @@ def _create_schemas(
             if isinstance(schemas_or_err, PropertyError):
                 next_round.append((name, data))
                 errors.append(schemas_or_err)
+                _verif_trace.emit("create_try", name=name, outcome="fail")
                 continue
             schemas = schemas_or_err
             still_making_progress = True
+            _verif_trace.emit(
+                "create_try",
+                name=name,
+                outcome="ok",
+                by_ref=sorted(schemas.classes_by_reference),
+                by_name=sorted(schemas.classes_by_name),
+                to_process=[m.name for m in schemas.models_to_process],
+            )
         to_process = next_round
+        _verif_trace.emit("create_round", progress=still_making_progress, remaining=[n for n, _ in next_round])
 
     schemas.errors.extend(errors)
     return schemas
@@ -350,11 +362,13 @@ def _create_schemas(
 def _propogate_removal(*, root: ReferencePath | utils.ClassName, schemas: Schemas, error: PropertyError) -> None:
     if isinstance(root, utils.ClassName):
         schemas.classes_by_name.pop(root, None)
+        _verif_trace.emit("remove", kind="cls", root=str(root))
         return
     if root in schemas.classes_by_reference:
         error.detail = error.detail or ""
         error.detail += f"\n{root}"
         del schemas.classes_by_reference[root]
+        _verif_trace.emit("remove", kind="ref", root=str(root))
         for child in schemas.dependencies.get(root, set()):
             _propogate_removal(root=child, schemas=schemas, error=error)
 
@@ -392,16 +406,29 @@ def _process_models(*, schemas: Schemas, config: Config) -> Schemas:
                     schemas_or_err.detail = schemas_or_err.detail or ""
                     schemas_or_err.detail += "\n\nRecursive allOf reference found"
                     final_model_errors.append((model_prop, schemas_or_err))
+                    _verif_trace.emit("process_try", name=model_prop.name, outcome="final")
                     continue
                 latest_model_errors.append((model_prop, schemas_or_err))
                 next_round.append(model_prop)
+                _verif_trace.emit("process_try", name=model_prop.name, outcome="retry")
                 continue
             schemas = schemas_or_err
             still_making_progress = True
+            _verif_trace.emit(
+                "process_try", name=model_prop.name, outcome="ok", by_name=sorted(schemas.classes_by_name)
+            )
         to_process = next_round
+        _verif_trace.emit("process_round", progress=still_making_progress, remaining=[m.name for m in next_round])
 
     final_model_errors.extend(latest_model_errors)
+    _verif_trace.emit("remove_begin", failed=[m.name for m, _ in final_model_errors])
     errors = _process_model_errors(final_model_errors, schemas=schemas)
+    _verif_trace.emit(
+        "schemas_done",
+        by_ref=sorted(schemas.classes_by_reference),
+        by_name=sorted(schemas.classes_by_name),
+        errors=len(schemas.errors) + len(errors),
+    )
     return evolve(schemas, errors=[*schemas.errors, *errors], models_to_process=to_process)
 
 
